@@ -48,10 +48,10 @@ type coSched struct {
 	coarseOnly bool
 	info       *pointTable
 	allDone    chan struct{}
-	preempts   []int // point ids at which a preemption happened
-	points     int   // scheduling points offered
-	steps      int   // instrumented statements executed by all threads
-	streak     int   // consecutive "blocked" reports with no statement in between
+	preempts   []int  // point ids at which a preemption happened
+	points     int    // scheduling points offered
+	steps      int    // instrumented statements executed by all threads
+	streak     int    // consecutive "blocked" reports with no statement in between
 	abort      string // non-empty: the execution is being torn down (deadlock, no progress)
 }
 
